@@ -26,6 +26,8 @@ class Pending(Monitor):
         self.commits = 0
         self.tagger_checks = 0
         self.type_cache = {}
+        self.active = {}        # shadow activation state: tag -> bool, from the activate / deactivate lists
+        self.last = None
 
     def _is_interaction(self, tagger):
         key = type(tagger)
@@ -34,8 +36,22 @@ class Pending(Monitor):
         return self.type_cache[key]
 
     def on_to_run(self, activator, active_state, preceding, result):
+        ctx = self.ctx
         for handler, identifiers in result.items():
             self.ids[handler] = canonical(identifiers)
+        # shadow activation model, independent of the taggers' own state
+        if not self.active:
+            self.active = {tagger.tag: True for tagger in ctx.taggers}
+        if preceding is None:
+            source = [t for t in ctx.taggers if any(ctx.kind(h) == "start_of_run" for h in t.get_event_handlers())]
+            source = source[0] if source else None
+        else:
+            source = ctx.handler_tagger.get(preceding)
+        if source is not None:
+            for tag in source.activates:
+                self.active[tag] = True
+            for tag in source.deactivates:
+                self.active[tag] = False
 
     def on_trash(self, scheduler, handler):
         self.ids.pop(handler, None)
@@ -56,7 +72,24 @@ class Pending(Monitor):
         for tagger in ctx.taggers:
             if any(ctx.kind(h) == "start_of_run" for h in tagger.get_event_handlers()):
                 continue    # one-shot: never re-created, not among the taggers the property speaks about
-            fresh = [canonical(i) for i in tagger.yield_identifiers_send_event_time(active_state)]
+            live = [canonical(i) for i in tagger.yield_identifiers_send_event_time(active_state)]
+            if self.active.get(tagger.tag, True):
+                # what the activated tagger generates (class-level method: independent of the instance's switch)
+                fresh = [canonical(i) for i in type(tagger).yield_identifiers_send_event_time(tagger, active_state)]
+                if self._is_interaction(tagger):
+                    if Counter(live) != Counter(fresh):
+                        ctx.violation("C09", "activated_tagger_does_not_generate_its_in_states",
+                                      {"tagger": tagger.tag, "generates": live[:5], "should_generate": fresh[:5]})
+                elif len(live) != len(fresh):
+                    ctx.violation("C09", "activated_tagger_does_not_generate_its_in_states",
+                                  {"tagger": tagger.tag, "generates": len(live), "should_generate": len(fresh)})
+                ctx.probes["c09_checks_of_activated_taggers"] += 1
+            else:
+                fresh = []
+                if live:
+                    ctx.violation("C09", "deactivated_tagger_generates_in_states",
+                                  {"tagger": tagger.tag, "generates": live[:5]})
+                ctx.probes["c09_checks_of_deactivated_taggers"] += 1
             pending = by_tagger.get(tagger, [])
             owned = len(tagger.get_event_handlers())
             if len(fresh) > owned:
